@@ -509,14 +509,27 @@ impl CommandBuilder<'_> {
                 } else {
                     &self.extra_args
                 };
-                println!(
-                    "{}",
-                    printed
-                        .iter()
-                        .map(|arg| arg.to_string_lossy())
-                        .collect::<Vec<_>>()
-                        .join(" ")
-                );
+                // The arguments are written as they are (they need not be valid UTF-8).
+                let mut line: Vec<u8> = Vec::new();
+                for (i, arg) in printed.iter().enumerate() {
+                    if i > 0 {
+                        line.push(b' ');
+                    }
+                    #[cfg(unix)]
+                    {
+                        use std::os::unix::ffi::OsStrExt;
+                        line.extend_from_slice(arg.as_bytes());
+                    }
+                    #[cfg(not(unix))]
+                    line.extend_from_slice(arg.to_string_lossy().as_bytes());
+                }
+                line.push(b'\n');
+                {
+                    use std::io::Write;
+                    let mut out = io::stdout().lock();
+                    out.write_all(&line).unwrap();
+                    out.flush().unwrap();
+                }
                 Ok(CommandResult::Success)
             }
         }
